@@ -23,7 +23,7 @@ class Prop(BaseProp):
             "an O(n*m) pairwise evaluation of the coincidence definition in rational arithmetic. On non-dyadic input a "
             "pair whose distance and window agree to 2^-48 is rounding-ambiguous and only counted. distinct = "
             "interleaving words incl. MRTS/max_tau regime")
-    budget = {"quick": 1400, "thorough": 50000}
+    budget = {"quick": 2800, "thorough": 600000}
     must_see = ["exact_tie_distance_equals_window", "simultaneous_event", "spike_on_t_start", "spike_on_t_end",
                 "max_tau_none", "max_tau_zero", "max_tau_positive", "mrts_below_all_isis", "mrts_between_isis",
                 "mrts_above_all_isis", "both_empty", "coincidence_found", "interp_regime_theta_below_min",
